@@ -225,8 +225,7 @@ Definition ssort_rules (rs : list (spath * srule)) : list (spath * srule) := fol
    value shows the final state of the copy *)
 Definition spec_refresh_failure (final : pyval) (f : pyval) : pyval :=
   match f with
-  | VTuple [i; (VList _ | VDict _) as v; VTuple cp; b] =>
-      match get_at final cp with Some v' => VTuple [i; v'; VTuple cp; b] | None => f end
+  | VTuple [i; v; VTuple cp; b] => VTuple [i; refreshed_value final v cp; VTuple cp; b]
   | _ => f
   end.
 Definition spec_refresh_verdict (final : pyval) (r : srule) (v : pyval) : pyval :=
